@@ -13,11 +13,13 @@
    whose guard is simple (rm of a file, mv, clean -d), add (file / directory /
    All / any list of names) up to cached stat data, rm of a directory, clean
    without -d under explicit boolean guards. *)
-From Coq Require Import List NArith Bool String.
+From Coq Require Import List NArith ZArith Bool String.
 From Coq Require Import Permutation.
 From GoGit Require Import Base.Out Model.Status Model.IndexOps Spec.GitStatus Spec.GitIndexOps Proofs.C27 Proofs.C28 Proofs.C28Tree.
 From GoGit Require Import Proofs.C28Add Proofs.C28AddCor.
 From GoGit Require Import Model.CommitHead Spec.GitCommitHead Proofs.C28Head.
+From GoGit Require Model.TreeObj Model.WriteTree Spec.GitWriteTree Proofs.C28Order.
+From GoGit Require Import Model.IndexGlob Spec.GitIndexGlob Proofs.C28Glob.
 Import ListNotations.
 Local Open Scope N_scope.
 
@@ -88,6 +90,34 @@ Theorem C28_commit_files : forall s,
   existsb symlink_meta (st_index s) = false -> g_commit s = Some (g_commit_files s).
 Proof. intros s H. unfold g_commit. now rewrite H. Qed.
 Print Assumptions C28_commit_files.
+
+(* --- commit: the trees in LIST form.  Model/WriteTree.v: every directory's entries are
+   sorted by sortName (TreeObj.sort_entries), the sub-trees written first, the tree encoded by
+   Tree.Encode and named by SHA-1 — g_write_tree computes the root id from the contents of the
+   case; Spec/GitWriteTree.v transcribes cache-tree.c and computes git's id.  Both ids are
+   compared with the implementation and with `git write-tree` on every commit case.
+   Proved: for entries whose names git can store (no NUL, no '/') the order BuildTree gives a
+   directory is the order git's base_name_compare requires, for every directory of every tree *)
+Theorem C28_tree_order : forall es,
+  forallb C28Order.entry_plain es = true -> C28Order.ordered_git (TreeObj.sort_entries es) = true.
+Proof. exact C28Order.sort_ordered. Qed.
+Print Assumptions C28_tree_order.
+
+(* base_name_compare is the byte order of the sort names (name, plus '/' for a directory) *)
+Theorem C28_base_name_compare : forall n1 n2 m1 m2,
+  C28Order.plain n1 = true -> C28Order.plain n2 = true ->
+  C28Order.mode_plain m1 = true -> C28Order.mode_plain m2 = true ->
+  GitWriteTree.base_name_compare n1 m1 n2 m2 =
+  C28Order.lexcmp (n1 ++ C28Order.suffix_of m1) (n2 ++ C28Order.suffix_of m2).
+Proof. exact C28Order.bnc_lex. Qed.
+Print Assumptions C28_base_name_compare.
+
+(* a.b < a/ (directory a) < a0 : the classic case where the directory does not sort as "a" *)
+Example C28_tree_order_inhabited :
+  let es := [TreeObj.mkT 16384%Z [97] [1]; TreeObj.mkT 33188%Z [97; 48] [2]; TreeObj.mkT 33188%Z [97; 46; 98] [3]] in
+  forallb C28Order.entry_plain es = true /\
+  map TreeObj.t_name (TreeObj.sort_entries es) = [[97; 46; 98]; [97]; [97; 48]].
+Proof. vm_compute. split; reflexivity. Qed.
 
 (* --- commit: parents and the reference update.  For every repository state (HEAD
    symbolic or detached, branch born or not, any commit table) and options
@@ -319,6 +349,27 @@ Theorem C28_add_all_eq : forall s, add_guard s = true -> res_equiv (g_add_all s)
 Proof. exact add_all_eq. Qed.
 Print Assumptions C28_add_all_eq.
 
+(* AddGlob: for EVERY list of matches (whatever the pattern matcher returns): matched files
+   acceptable, matched directories real directories, the resulting names distinct *)
+Theorem C28_add_glob_eq : forall s ms,
+  add_guard s = true -> matches_guard s ms = true -> res_equiv (g_add_matches s ms) (s_add_matches s ms).
+Proof. exact add_matches_eq. Qed.
+Print Assumptions C28_add_glob_eq.
+
+(* RemoveGlob = git rm -r -f <pattern> when every matched entry still has its file *)
+Theorem C28_rm_glob_eq : forall s pat, rm_glob_guard s pat = true -> g_rm_glob s pat = s_rm_glob s pat.
+Proof. exact rm_glob_eq. Qed.
+Print Assumptions C28_rm_glob_eq.
+
+(* RemoveGlob of an entry whose directory is already gone: go-git fails (ReadDir of the missing
+   directory) and leaves the index alone, git removes the entry *)
+Theorem C28_rm_glob_missing_dir_refuted : exists s pat s',
+  g_rm_glob s pat = RErr s /\ s_rm_glob s pat = ROk s' /\ st_index s' = [].
+Proof.
+  eexists (st0 true [] [mkI pdx MReg (mkHash 0 1) 2 5 false] []), [100; 47; 42], _. repeat split; reflexivity.
+Qed.
+Print Assumptions C28_rm_glob_missing_dir_refuted.
+
 (* --- rm of a directory all of whose entries still have their files: exact equality *)
 Theorem C28_rm_dir_eq : forall s p, rm_dir_guard s p = true -> g_rm s p = s_rm s p.
 Proof. exact rm_dir_eq. Qed.
@@ -339,6 +390,9 @@ Example C28_add_guards_inhabited :
                  mkW pdx MReg 3 1 9 false false; mkW pdy MReg 4 1 5 false false; mkW [111] MReg 3 1 9 true true] in
   add_guard s = true /\ add_file_guard s pa = true /\ add_file_guard s [117] = true /\ add_dir_guard s pd = true /\
   rm_dir_guard s pd = true /\ clean_nod_guard s = false /\
+  g_glob s [100; 42] = [pd] /\ g_glob s [42] = [pa; [98]; [117]; pd; [111]] /\ g_glob s [42; 47; 63] = [pdx; pdy] /\
+  matches_guard s (g_glob s [100; 42]) = true /\ matches_guard s (g_glob s [42; 47; 63]) = true /\
+  rm_glob_guard s [100; 47; 42] = true /\
   clean_nod_guard (with_both s (st_index s) [mkW pa MReg 5 2 9 false false; mkW [117] MReg 3 1 9 false false]) = true /\
   (exists s', g_add_all s = ROk s' /\ map ie_path (st_index s') = [pa; [98]; pdy; [117]; pdx]) /\
   (exists s', g_add s pd = ROk s' /\ map ie_path (st_index s') = [pa; [98]; pdy; [103]; pdx]) /\
